@@ -5,6 +5,8 @@ import (
 	"net/http"
 	"strconv"
 	"strings"
+
+	"github.com/vektah/gqlparser/v2/gqlerror"
 )
 
 const (
@@ -90,4 +92,23 @@ func mergeHeaders(baseHeaders, additionalHeaders map[string][]string) map[string
 		result[key] = values
 	}
 	return result
+}
+
+// operationErrorStatus is the status for an operation that could not be started, as defined for
+// the media type the response is sent with (parameters such as charset do not matter).
+func operationErrorStatus(contentType string, errs gqlerror.List) int {
+	if mediaType, _, err := mime.ParseMediaType(contentType); err == nil && mediaType == acceptApplicationGraphqlResponseJson {
+		return statusForGraphQLResponse(errs)
+	}
+	return statusFor(errs)
+}
+
+// configuredContentType returns the Content-Type named by configured response headers, if any.
+func configuredContentType(headers map[string][]string) string {
+	for k, v := range headers {
+		if strings.EqualFold(k, "Content-Type") && len(v) > 0 {
+			return v[0]
+		}
+	}
+	return ""
 }
